@@ -1,8 +1,376 @@
-/- C06 — AHAB image (placeholder while the harness is being built) -/
-import SpsdkVerif.Model.Ahab
-import SpsdkVerif.Model.AhabVerify
-import SpsdkVerif.Spec.AhabRom
+/-
+C06 — AHAB image: containers verify, images hash and decrypt, offsets never collide.
+
+Models (tied to /repo by harness/props/C06.py):
+  * Generated/AhabConsts.lean — struct formats, tags, bit positions, the range records of the verify() trees, create_flags /
+    create_meta / get_container_offset (translated from the source), per-chip database rows; Generated/PyFuns.lean (check_range, align)
+  * Model/Ahab.lean — exporter (update_fields, offsets, signature block layout, container / image export)
+  * Model/AhabVerify.lean — range / consistency part of the verify() trees, driven by the generated record tables
+  * Spec/AhabRom.lean — independent check of a binary (hand-transcribed format constants)
+Helper lemmas: Proofs/Ahab.lean, Proofs/AhabVerify.lean, Proofs/AhabRom.lean (the last one uses the C16 BinaryImage theorems).
+
+Cryptography is a parameter `c : CryptoOps`; positive statements need only `CryptoLaws c`.  The model never signs: the
+signature bytes are an input and the statements about them are (i) WHICH bytes are signed, (ii) that those bytes do not
+depend on the signature.  Verification of the signature itself is discharged by the harness with `cryptography`.
+-/
+import SpsdkVerif.Proofs.Ahab
+import SpsdkVerif.Proofs.AhabVerify
+import SpsdkVerif.Proofs.AhabRom
 
 namespace SpsdkVerif.C06
-theorem placeholder : True := trivial
+open SpsdkVerif SpsdkVerif.Misc SpsdkVerif.Ahab SpsdkVerif.AhabVerify
+open SpsdkVerif.Generated
+open SpsdkVerif.Crypto (CryptoOps CryptoLaws)
+
+/-! ## 0. the hand-transcribed format (Spec) agrees with the constants extracted from the source -/
+
+theorem spec_consts_agree :
+    Spec.AhabRom.containerTag = AhabConsts.containerTag ∧ Spec.AhabRom.sigBlockTag = AhabConsts.sigBlockTag ∧
+    Spec.AhabRom.srkTableTag = AhabConsts.srkTableTag ∧ Spec.AhabRom.srkTableVersion = AhabConsts.srkTableVersion ∧
+    Spec.AhabRom.srkRecordTag = AhabConsts.srkRecordTag ∧ Spec.AhabRom.signatureTag = AhabConsts.signatureTag ∧
+    Spec.AhabRom.headerSize = AhabConsts.containerLayout.size ∧ Spec.AhabRom.headerSize = AhabConsts.containerV2Layout.size ∧
+    Spec.AhabRom.iaeSize = AhabConsts.iaeLayout.size ∧ Spec.AhabRom.iaeSize = AhabConsts.iaeV2Layout.size ∧
+    Spec.AhabRom.sigBlockHeaderSize = AhabConsts.sigBlockLayout.size ∧ Spec.AhabRom.sigBlockHeaderSize = AhabConsts.sigBlockV2Layout.size ∧
+    Spec.AhabRom.hashFieldLen = AhabConsts.iaeHashLen ∧ Spec.AhabRom.ivFieldLen = AhabConsts.iaeIvLen ∧
+    Spec.AhabRom.hashFieldOff = intsLen AhabConsts.iaeLayout.intWidths ∧
+    Spec.AhabRom.ivFieldOff = intsLen AhabConsts.iaeLayout.intWidths + AhabConsts.iaeHashLen ∧
+    Spec.AhabRom.blockAlign = AhabConsts.containerAlignment ∧
+    (Spec.AhabRom.paramsV1 0 0).containerSize = AhabConsts.containerSizeV1 ∧ (Spec.AhabRom.paramsV2 0 0).containerSize = AhabConsts.containerSizeV2 ∧
+    (Spec.AhabRom.paramsV1 0 0).version = AhabConsts.containerVersionV1 ∧ (Spec.AhabRom.paramsV2 0 0).version = AhabConsts.containerVersionV2 ∧
+    (Spec.AhabRom.paramsV1 0 0).sbVersion = AhabConsts.sigBlockVersionV1 ∧ (Spec.AhabRom.paramsV2 0 0).sbVersion = AhabConsts.sigBlockVersionV2 ∧
+    (Spec.AhabRom.paramsV1 0 0).encBit = AhabConsts.iFlagsIsEncryptedOffsetV1 ∧ (Spec.AhabRom.paramsV2 0 0).encBit = AhabConsts.iFlagsIsEncryptedOffsetV2 ∧
+    (Spec.AhabRom.paramsV1 0 0).hashBits = AhabConsts.iFlagsHashSizeV1 ∧ (Spec.AhabRom.paramsV2 0 0).hashBits = AhabConsts.iFlagsHashSizeV2 ∧
+    AhabConsts.iFlagsHashOffsetV1 = 8 ∧ AhabConsts.iFlagsHashOffsetV2 = 8 := by decide
+
+/-- the order in which the exporters pack their fields (argument list of `pack(self.format(), ...)` in the source) -/
+theorem field_order_agrees :
+    AhabConsts.containerLayout.packArgs =
+      ["version", "length", "tag", "flags", "sw_version", "fuse_version", "image_array_len", "_signature_block_offset", "RESERVED"] ∧
+    AhabConsts.iaeLayout.packArgs =
+      ["_image_offset", "image_size", "load_address", "entry_point", "flags", "image_meta_data", "image_hash", "image_iv"] ∧
+    AhabConsts.sigBlockLayout.packArgs =
+      ["version", "length", "tag", "_certificate_offset", "_srk_assets_offset", "signature_offset", "_blob_offset",
+       "blob.key_identifier?RESERVED"] ∧
+    AhabConsts.sigBlockV2Layout.packArgs = AhabConsts.sigBlockLayout.packArgs ∧
+    AhabConsts.srkRecordLayout.packArgs =
+      ["tag", "length", "version", "hash_algorithm.tag", "key_size", "RESERVED", "srk_flags", "parameter_lengths"] ∧
+    AhabConsts.srkTableLayout.packArgs = ["tag", "length", "version"] ∧
+    AhabConsts.signatureLayout.packArgs = ["version", "length", "tag", "RESERVED"] ∧
+    AhabConsts.blobLayout.packArgs = ["version", "length", "tag", "flags", "_size//8", "algorithm.tag", "mode"] := by decide
+
+/-- every chip row of the database is usable by the layout theorems: positive alignments, at most four containers
+    (`get_container_offset` refuses index > 3), a known container generation -/
+theorem chips_wf : ∀ r ∈ AhabConsts.chips,
+    0 < r.imageSizeAlign ∧ 0 < r.minOffsetAlign ∧ 1 ≤ r.containersMax ∧ r.containersMax ≤ 4 ∧ 1 ≤ r.imagesMax ∧
+    r.containerTypes ≠ [] ∧ (∀ t ∈ r.containerTypes, t = 1 ∨ t = 2) := by decide
+
+/-! ## 1. round trips -/
+
+/-- an exported image-array entry parses back to itself (both container generations) -/
+theorem iae_roundtrip (v : Ver) (e : Iae) (b rest : Bytes) (hh : e.hash.length = 64) (hi : e.iv.length = 32)
+    (h : encodeIae v.iaeLayout e = .ok b) : decodeIae v.iaeLayout (b ++ rest) = some e :=
+  iae_roundtrip' v.iaeLayout (iaeLayout_facts v).1 (iaeLayout_facts v).2.1 (iaeLayout_facts v).2.2 e b rest hh hi h
+
+/-- header and image array of an exported container parse back: all eight header fields and every entry -/
+theorem container_roundtrip (v : Ver) (length flags sw fuse sbo : Nat) (es : List Iae) (hb ab rest : Bytes)
+    (hwf : ∀ e ∈ es, e.hash.length = 64 ∧ e.iv.length = 32)
+    (h1 : encodeHeader v length flags sw fuse es.length sbo = .ok hb) (h2 : encodeIaes v.iaeLayout es = .ok ab)
+    (hl : length ≤ (hb ++ ab ++ rest).length) :
+    decodeHeader v (hb ++ ab ++ rest) = some ⟨v.containerVersion, length, AhabConsts.containerTag, flags, sw, fuse, es.length, sbo⟩ ∧
+    decodeIaes v.iaeLayout (hb ++ ab ++ rest) es.length (v.hdrLayout).size = some es := by
+  refine ⟨?_, ?_⟩
+  · rw [List.append_assoc]
+    exact header_roundtrip' v length flags sw fuse es.length sbo hb (ab ++ rest) h1 (by rw [← List.append_assoc]; exact hl)
+  · have := iaes_roundtrip' v.iaeLayout (iaeLayout_facts v).1 (iaeLayout_facts v).2.1 (iaeLayout_facts v).2.2 es ab hb rest hwf h2
+    rw [encodeHeader_length v _ _ _ _ _ _ hb h1] at this
+    rw [(hdrLayout_widths v).2]
+    exact this
+
+/-- an SRK record and a whole SRK table (four records of one key type, lengths as `update_fields` computes them) parse back -/
+theorem srk_roundtrip (t : SrkTable) (b rest : Bytes) (hwf : SrkTableWF t) (h : encodeSrkTable t = .ok b) :
+    decodeSrkTable (b ++ rest) = some t ∧
+    ∀ r ∈ t.records, ∀ rb rrest, encodeSrkRecord r = .ok rb → decodeSrkRecord (rb ++ rrest) = some r :=
+  ⟨srkTable_roundtrip' t b rest hwf h, fun r hr rb rrest hrb => srkRecord_roundtrip' r rb rrest (hwf.recs r hr) hrb⟩
+
+/-! ## 2. flag and meta-data words (functions translated from the source) -/
+
+/-- `create_flags` / `create_meta` pack their fields disjointly: every getter returns what was put in, and the word fits
+    32 bits.  Version 1: hash field 3 bits, encrypted flag bit 11; version 2: 4 bits, bit 12. -/
+theorem flags_meta_fields (ty core h boot a b m : Nat) (enc : Bool) (ht : ty < 16) (hc : core < 16) (hboot : boot < 2 ^ 15)
+    (ha : a < 1024) (hb : b < 1024) (hm : m < 256) :
+    (h < 8 → ∃ f : Nat, AhabConsts.createFlagsV1 ty core h enc boot = .ok (f : Int) ∧ f < 2 ^ 32 ∧
+      getF f Ver.v1.typeOff Ver.v1.typeSize = ty ∧ getF f Ver.v1.coreOff Ver.v1.coreSize = core ∧ Iae.hashTag .v1 f = h ∧
+      Iae.isEncrypted .v1 f = enc ∧ getF f Ver.v1.bootOff Ver.v1.bootSize = boot) ∧
+    (h < 16 → ∃ f : Nat, AhabConsts.createFlagsV2 ty core h enc boot = .ok (f : Int) ∧ f < 2 ^ 32 ∧
+      getF f Ver.v2.typeOff Ver.v2.typeSize = ty ∧ getF f Ver.v2.coreOff Ver.v2.coreSize = core ∧ Iae.hashTag .v2 f = h ∧
+      Iae.isEncrypted .v2 f = enc ∧ getF f Ver.v2.bootOff Ver.v2.bootSize = boot) ∧
+    (∃ md : Nat, AhabConsts.createMeta a b m = .ok (md : Int) ∧ md < 2 ^ 28 ∧
+      getF md AhabConsts.iMetadataStartCpuIdOffsetV1 AhabConsts.iMetadataStartCpuIdSizeV1 = a ∧
+      getF md AhabConsts.iMetadataMuCpuIdOffsetV1 AhabConsts.iMetadataMuCpuIdSizeV1 = b ∧
+      getF md AhabConsts.iMetadataStartPartitionIdOffsetV1 AhabConsts.iMetadataStartPartitionIdSizeV1 = m) := by
+  have encv : (if enc = true then 1 else 0 : Nat) ≤ 1 := by cases enc <;> simp
+  refine ⟨fun hh => ?_, fun hh => ?_, ?_⟩
+  · refine ⟨_, createFlagsV1_val ty core h boot enc ht hc hh, ?_⟩
+    have A := flags_arith_v1 ty core h boot (if enc = true then 1 else 0) ht hc hh encv hboot
+    simp only [Iae.hashTag, Iae.isEncrypted, getF_eq]
+    refine ⟨A.1, A.2.1, A.2.2.1, A.2.2.2.1, ?_, A.2.2.2.2.2⟩
+    have := A.2.2.2.2.1
+    show (_ / 2 ^ 11 % 2 ^ 1 != 0) = enc
+    rw [show (2 : Nat) ^ 11 = 2048 from rfl, show (2 : Nat) ^ 1 = 2 from rfl, show (2 : Nat) ^ 4 = 16 from rfl,
+        show (2 : Nat) ^ 8 = 256 from rfl, show (2 : Nat) ^ 16 = 65536 from rfl, this]
+    cases enc <;> simp
+  · refine ⟨_, createFlagsV2_val ty core h boot enc ht hc hh, ?_⟩
+    have A := flags_arith_v2 ty core h boot (if enc = true then 1 else 0) ht hc hh encv hboot
+    simp only [Iae.hashTag, Iae.isEncrypted, getF_eq]
+    refine ⟨A.1, A.2.1, A.2.2.1, A.2.2.2.1, ?_, A.2.2.2.2.2⟩
+    have := A.2.2.2.2.1
+    show (_ / 2 ^ 12 % 2 ^ 1 != 0) = enc
+    rw [show (2 : Nat) ^ 12 = 4096 from rfl, show (2 : Nat) ^ 1 = 2 from rfl, show (2 : Nat) ^ 4 = 16 from rfl,
+        show (2 : Nat) ^ 8 = 256 from rfl, show (2 : Nat) ^ 16 = 65536 from rfl, this]
+    cases enc <;> simp
+  · have A := meta_arith a b m ha hb hm
+    refine ⟨_, createMeta_val a b m ha hb, A.1, ?_, ?_, ?_⟩
+    · rw [getF_eq]; exact A.2.1
+    · rw [getF_eq]; exact A.2.2.1
+    · rw [getF_eq]; exact A.2.2.2
+
+/-! ## 3. signature block: offsets and the signed range -/
+
+/-- `0 < srkOff < sigOff (< certOff < blobOff) ≤ length` after `update_fields`, for both generations: every present block
+    lies behind the 16-byte header and behind every earlier present block, inside the block; absent blocks have offset 0;
+    version-1 offsets are 64-bit aligned -/
+theorem sigblock_monotone (v : Ver) (sb : SigBlock) :
+    let o := sbLayout v sb
+    let s1 := sb.srk.length
+    let s2 := sb.sigSize v
+    let s3 := sb.cert.length
+    let s4 := sb.blobLen
+    (s1 = 0 → o.srkOff = 0) ∧ (s2 = 0 → o.sigOff = 0) ∧ (s3 = 0 → o.certOff = 0) ∧ (s4 = 0 → o.blobOff = 0) ∧
+    (s1 ≠ 0 → 16 ≤ o.srkOff ∧ o.srkOff + s1 ≤ o.length) ∧
+    (s2 ≠ 0 → 16 ≤ o.sigOff ∧ (s1 ≠ 0 → o.srkOff + s1 ≤ o.sigOff) ∧ o.sigOff + s2 ≤ o.length) ∧
+    (s3 ≠ 0 → 16 ≤ o.certOff ∧ (s1 ≠ 0 → o.srkOff + s1 ≤ o.certOff) ∧ (s2 ≠ 0 → o.sigOff + s2 ≤ o.certOff) ∧
+              o.certOff + s3 ≤ o.length) ∧
+    (s4 ≠ 0 → 16 ≤ o.blobOff ∧ (s1 ≠ 0 → o.srkOff + s1 ≤ o.blobOff) ∧ (s2 ≠ 0 → o.sigOff + s2 ≤ o.blobOff) ∧
+              (s3 ≠ 0 → o.certOff + s3 ≤ o.blobOff) ∧ o.blobOff + s4 = o.length) ∧
+    16 ≤ o.length ∧
+    (v = .v1 → o.srkOff % 8 = 0 ∧ o.sigOff % 8 = 0 ∧ o.certOff % 8 = 0 ∧ o.blobOff % 8 = 0) :=
+  sigblock_layout v sb
+
+/-- the headline chain for a signed container with certificate and blob -/
+theorem sigblock_chain (v : Ver) (sb : SigBlock) (h1 : sb.srk.length ≠ 0) (h2 : sb.sigSize v ≠ 0) (h3 : sb.cert.length ≠ 0)
+    (h4 : sb.blobLen ≠ 0) :
+    0 < (sbLayout v sb).srkOff ∧ (sbLayout v sb).srkOff < (sbLayout v sb).sigOff ∧ (sbLayout v sb).sigOff < (sbLayout v sb).certOff ∧
+    (sbLayout v sb).certOff < (sbLayout v sb).blobOff ∧ (sbLayout v sb).blobOff < (sbLayout v sb).length := by
+  have L := sigblock_layout v sb
+  simp only at L
+  generalize sbLayout v sb = o at L ⊢
+  obtain ⟨_, _, _, _, p1, p2, p3, p4, _, _⟩ := L
+  have q1 := p1 h1
+  have q2 := p2 h2
+  have q3 := p3 h3
+  have q4 := p4 h4
+  have r2 := q2.2.1 h1
+  have r3 := q3.2.2.1 h2
+  have r4 := q4.2.2.2.1 h3
+  have n1 : 0 < sb.srk.length := Nat.pos_of_ne_zero h1
+  have n2 : 0 < sb.sigSize v := Nat.pos_of_ne_zero h2
+  have n3 : 0 < sb.cert.length := Nat.pos_of_ne_zero h3
+  have n4 : 0 < sb.blobLen := Nat.pos_of_ne_zero h4
+  refine ⟨by omega, by omega, by omega, by omega, by omega⟩
+
+/-- the data that is signed (`get_signature_data`) is the exported container cut at `signature block offset + signature
+    offset`, and that prefix consists of: container header, image array, (alignment), signature-block header, SRK table
+    (array) and the padding in front of the signature - nothing else -/
+theorem signed_range (v : Ver) (c : Container) (iaes : List Iae) (b : Bytes) (hb : BlobLenOK c.sb)
+    (h : exportContainerWith v c iaes = .ok b) :
+    signatureData v c iaes = .ok (b.take (sigBlockOffset v iaes.length + (sbLayout v c.sb).sigOff)) ∧
+    ∃ hd ab hdr,
+      encodeHeader v (headerLength v iaes.length (sbLayout v c.sb).length) c.flags c.swVersion c.fuseVersion iaes.length
+        (sigBlockOffset v iaes.length) = .ok hd ∧
+      encodeIaes v.iaeLayout iaes = .ok ab ∧ sbHeader v (sbLayout v c.sb) c.sb.keyId = .ok hdr ∧
+      b.take (sigBlockOffset v iaes.length + (sbLayout v c.sb).sigOff) =
+        hd ++ ab ++ zerosB (sigBlockOffset v iaes.length - (hd ++ ab).length) ++
+          (sbHead (sbLayout v c.sb) hdr c.sb.srk).take (sbLayout v c.sb).sigOff ∧
+      b.length = sigBlockOffset v iaes.length + (sbLayout v c.sb).length := by
+  refine ⟨by simp [signatureData, h], ?_⟩
+  obtain ⟨hd, ab, s, hdr, e1, e2, _, e4, _, _, e7, e8⟩ := exportContainer_spec v c iaes b hb h
+  exact ⟨hd, ab, hdr, e1, e2, e4, e8, e7⟩
+
+/-- the signed data does not depend on the signature bytes (nor on the bytes of certificate and blob): replacing them by
+    others of the same lengths leaves every signed byte unchanged - so signing after `update_fields` is well defined -/
+theorem signed_independent (v : Ver) (c c' : Container) (iaes : List Iae) (b b' : Bytes)
+    (hb : BlobLenOK c.sb) (hb' : BlobLenOK c'.sb)
+    (hf : c'.flags = c.flags) (hsw : c'.swVersion = c.swVersion) (hfu : c'.fuseVersion = c.fuseVersion)
+    (h1 : c'.sb.srk = c.sb.srk) (h2 : c'.sb.signature.length = c.sb.signature.length)
+    (h3 : c'.sb.signature2.length = c.sb.signature2.length) (h4 : c'.sb.cert.length = c.sb.cert.length)
+    (h5 : c'.sb.blobLen = c.sb.blobLen) (h6 : c'.sb.keyId = c.sb.keyId)
+    (h : exportContainerWith v c iaes = .ok b) (h' : exportContainerWith v c' iaes = .ok b') :
+    signatureData v c' iaes = signatureData v c iaes := by
+  have ho := sbLayout_congr v c.sb c'.sb (by rw [h1]) h2 h3 h4 h5
+  simp only [signatureData, h, h', ho]
+  rw [signed_data_independent v c c' iaes b b' hb hb' hf hsw hfu h1 h2 h3 h4 h5 h6 h h']
+
+/-! ## 4. offsets: assignment, disjointness, alignment, inside the image -/
+
+/-- the offset loop: every image sits at its explicit offset or (automatic) exactly at the cursor, which is the aligned
+    end (+ gap) of the previous image, across container boundaries, starting at the recommended start address -/
+theorem offsets_assigned (c : CryptoOps) (img : Image) (us : List UContainer) (h : img.update c = .ok us) :
+    Assigned img.chip img.ver (img.chip.startAddr img.ver) (allPlaced us) :=
+  updateContainers_assigned c img.chip img.ver img.containers 0 _ us h
+
+/-- no two images overlap: as long as no explicit offset points behind the cursor (in particular when all offsets are
+    automatic) the images are in increasing order, each one starting at or after the end of the previous one and at or
+    after the start address -/
+theorem offsets_disjoint (c : CryptoOps) (img : Image) (us : List UContainer) (h : img.update c = .ok us)
+    (ha : ExplicitAhead img.chip img.ver (img.chip.startAddr img.ver) (allPlaced us)) :
+    (allPlaced us).Pairwise (fun p q => p.offset + p.ready.size ≤ q.offset) ∧
+    ∀ p ∈ allPlaced us, img.chip.startAddr img.ver ≤ p.offset := by
+  have ho := assigned_ordered img.chip img.ver _ _ (offsets_assigned c img us h) ha
+  exact ⟨OrderedFrom_pairwise _ _ ho, OrderedFrom_ge _ _ ho⟩
+
+theorem offsets_disjoint_auto (c : CryptoOps) (img : Image) (us : List UContainer) (h : img.update c = .ok us)
+    (hauto : ∀ p ∈ allPlaced us, p.entry.offset = 0) :
+    (allPlaced us).Pairwise (fun p q => p.offset + p.ready.size ≤ q.offset) ∧
+    ∀ p ∈ allPlaced us, img.chip.startAddr img.ver ≤ p.offset :=
+  offsets_disjoint c img us h (explicitAhead_of_auto _ _ _ _ hauto)
+
+/-- the cursor behind an image is aligned to `max(get_valid_alignment(), valid_offset_minimal_alignment)` of THAT image and
+    leaves room for image and gap; hence every automatically placed image that follows another one is so aligned -/
+theorem offsets_aligned (ch : Chip) (v : Ver) (e : Entry) (r : Ready) (off : Nat) :
+    off + r.size + e.gapAfter ≤ nextCursor ch v e r off ∧
+    nextCursor ch v e r off % (max (validAlignment ch v e.flags) ch.row.minOffsetAlign) = 0 ∧
+    4 ≤ max (validAlignment ch v e.flags) ch.row.minOffsetAlign := by
+  refine ⟨(nextCursor_ge ch v e r off).1, (nextCursor_ge ch v e r off).2, ?_⟩
+  unfold validAlignment; split <;> omega
+
+/-- every image lies inside the length `AHABImage.__len__` reports -/
+theorem offsets_inside (ch : Chip) (us : List UContainer) (hA : 0 < ch.imageAlignment) (p : Placed) (hp : p ∈ allPlaced us) :
+    p.offset + p.ready.size ≤ imageLength ch us :=
+  placed_within_length ch us hA p hp
+
+/-! ## 5. containers sit at their fixed offsets -/
+
+/-- container `k` gets offset `k * CONTAINER_SIZE` (0x400 / 0x4000; `get_container_offset` translated from the source) and
+    there are at most four -/
+theorem containers_fixed (c : CryptoOps) (img : Image) (us : List UContainer) (h : img.update c = .ok us) :
+    us.length = img.containers.length ∧
+    ∀ k u, us[k]? = some u → u.index = k ∧ u.base = k * img.ver.containerSize ∧ k ≤ 3 ∧ img.containers[k]? = some u.cont := by
+  have := updateContainers_bases c img.chip img.ver img.containers 0 _ us h
+  refine ⟨this.1, fun k u hk => ?_⟩
+  have := this.2 k u hk
+  simpa using this
+
+/-- ... and in the exported FILE the bytes of container `k` start at `k * CONTAINER_SIZE` -/
+theorem containers_fixed_in_file (c : CryptoOps) (img : Image) (bin : Bytes) (hexp : img.export c = .ok bin)
+    (hA : 0 < img.chip.imageAlignment) (us : List UContainer) (hus : img.update c = .ok us) (k : Nat) (u : UContainer)
+    (hk : us[k]? = some u) (hblob : BlobLenOK u.cont.sb) :
+    ∃ cb, u.export img.ver = .ok cb ∧ u.base = k * img.ver.containerSize ∧ k ≤ 3 ∧
+      Spec.AhabRom.slice bin (k * img.ver.containerSize) cb.length = cb :=
+  export_containers_fixed' c img bin hexp hA us hus k u hk hblob
+
+/-! ## 6. the independent check accepts what is exported -/
+
+/-- `rom_accepts` (hash / placement / decryption part), for every `c` with `CryptoLaws c`: the independent entry check of
+    Spec/AhabRom.lean, run on the exported file at the position of entry `i` of container `u`, succeeds and reports the
+    entry's absolute offset, size and flags: the entry points at the bytes of its image, its hash field is the hash of
+    those bytes under the algorithm its flags declare, and an encrypted image decrypts (AES-CBC, DEK, IV field[16:32]) to
+    data whose SHA-256 is the IV field.
+    `hnoext` excludes the open finding C06-encrypted-size-alignment (cipher text zero-extended after encryption); the first
+    disjunct is the configuration "flagged encrypted but no blob", which SPSDK's verifier refuses. -/
+theorem rom_accepts (c : CryptoOps) (hc : CryptoLaws c) (img : Image) (bin : Bytes) (maxC maxI : Nat)
+    (hexp : img.export c = .ok bin) (hA : 0 < img.chip.imageAlignment)
+    (us : List UContainer) (hus : img.update c = .ok us) (u : UContainer) (hu : u ∈ us)
+    (i : Nat) (p : Placed) (hp : u.placed[i]? = some p)
+    (hblob : BlobLenOK u.cont.sb) (hsz : 0 < p.ready.size)
+    (hnoext : Iae.isEncrypted img.ver p.entry.flags = true → u.cont.sb.blob.isSome = true →
+      p.ready.size = p.ready.image.length ∧ (storedImage img.chip p.entry.data).length % 16 = 0 ∧ u.cont.dek.isSome = true) :
+    Iae.isEncrypted img.ver p.entry.flags = true ∧ u.cont.sb.blob.isSome = false ∨
+    Spec.AhabRom.checkEntry c (romParams img.ver maxC maxI) bin u.base (u.base + (16 + 128 * i))
+        (if u.cont.sb.blob.isSome then u.cont.dek else none) =
+      .ok ⟨p.offset, p.ready.size, p.entry.flags, Iae.isEncrypted img.ver p.entry.flags⟩ :=
+  rom_accepts_entry' c hc img bin maxC maxI hexp hA us hus u hu i p hp hblob hsz hnoext
+
+/-! ## 7. the verifier's range records -/
+
+/-- a bit-range record (`add_record_bit_range`) is an ERROR exactly for values outside `[0, 2^bits - 1]`.
+    This goes through the GENERATED `check_range` (`start <= x <= end` after commit d90f269): with the former body
+    (`start > x > end`, never true ... never failing) the statement is false and this theorem does not compile. -/
+theorem bit_range_record (r : AhabConsts.RangeRec) (x : Int) (h : r.viaCheckRange = true) :
+    recFails r (some x) = true ↔ ¬ (0 ≤ x ∧ x ≤ r.hi) :=
+  recFails_bits r x h
+
+/-- `verify_sound` / `verify_complete` for the container's own range records: they are clean exactly when flags,
+    sw_version, fuse_version (each in ITS record: "SW version" looks at `sw_version`, 16 bits; "Fuse version" at
+    `fuse_version`, 8 bits - the generated table says which attribute is fed in) and the signature block offset fit -/
+theorem container_records (v : Ver) (c : VContainer) :
+    failed AhabConsts.recsContainer (containerEnv v c) = [] ↔
+      (0 ≤ c.flags ∧ c.flags ≤ 4294967295) ∧ (0 ≤ c.swVersion ∧ c.swVersion ≤ 65535) ∧ (0 ≤ c.fuseVersion ∧ c.fuseVersion ≤ 255) ∧
+      ((sigBlockOffset v c.images.length : Nat) : Int) ≤ 65535 :=
+  container_records_iff v c
+
+/-- ... and an out-of-range sw / fuse version IS reported under that name, whatever the flags word is -/
+theorem sw_fuse_version_reported (v : Ver) (c : VContainer) :
+    (¬ (0 ≤ c.swVersion ∧ c.swVersion ≤ 65535) → "SW version" ∈ failed AhabConsts.recsContainer (containerEnv v c)) ∧
+    (¬ (0 ≤ c.fuseVersion ∧ c.fuseVersion ≤ 255) → "Fuse version" ∈ failed AhabConsts.recsContainer (containerEnv v c)) := by
+  refine ⟨fun h => ?_, fun h => ?_⟩
+  · exact mem_failed AhabConsts.recsContainer _ ⟨"SW version", "sw_version", 0, 65535, true⟩ (by decide)
+      ((recFails_bits _ _ rfl).2 h)
+  · exact mem_failed AhabConsts.recsContainer _ ⟨"Fuse version", "fuse_version", 0, 255, true⟩ (by decide)
+      ((recFails_bits _ _ rfl).2 h)
+
+theorem iae_records (e : VIae) :
+    failed AhabConsts.recsIae (iaeEnv e) = [] ↔
+      (0 ≤ e.flags ∧ e.flags ≤ 4294967295) ∧ (0 ≤ e.metaData ∧ e.metaData ≤ 4294967295) ∧
+      (0 ≤ e.imageOffset ∧ e.imageOffset ≤ 4294967295) ∧ (0 ≤ e.imageSize ∧ e.imageSize ≤ 4294967295) ∧
+      (0 ≤ e.loadAddress ∧ e.loadAddress ≤ 18446744073709551615) ∧ (0 ≤ e.entryPoint ∧ e.entryPoint ≤ 18446744073709551615) :=
+  iae_records_iff e
+
+/-- `verify_complete` (container part): "a valid image is never reported as erroneous" for the model's verifier - every
+    record (header tag / version / length, the range records, the four signature-block offset records with their
+    minimum-offset and alignment conditions, the blob records, the image size and range records of every entry) is clean
+    on a container as `update_fields` leaves it, provided its values fit the binary format.  Legal extreme values
+    (sw 65535, fuse 255, flags 2^32-1, addresses 2^64-1, key identifier 2^32-1) are inside the hypotheses. -/
+theorem verify_complete (ch : Chip) (v : Ver) (u : UContainer)
+    (hflags : u.cont.flags ≤ 4294967295) (hsw : u.cont.swVersion ≤ 65535) (hfuse : u.cont.fuseVersion ≤ 255)
+    (hn : u.placed ≠ [])
+    (hL : headerLength v u.placed.length (sbLayout v u.cont.sb).length ≤ 65535)
+    (hblob : ∀ b, u.cont.sb.blob = some b → BlobWF b u.cont.dek ∧ b.length ≠ 0)
+    (hp : ∀ p ∈ u.placed, PlacedWF ch v u.base p) :
+    verifyContainer ch v (toVContainer v u) = [] :=
+  verifyContainer_nil ch v u hflags hsw hfuse hn hL hblob hp
+
+/-- the structural half of `PlacedWF` is what `update_fields` establishes (the other half are the range bounds) -/
+theorem update_establishes (c : CryptoOps) (hc : CryptoLaws c) (img : Image) (us : List UContainer) (h : img.update c = .ok us)
+    (u : UContainer) (hu : u ∈ us) (p : Placed) (hp : p ∈ u.placed) :
+    p.iae = mkIae u.base p.offset p.entry p.ready ∧
+    p.ready.size = validSize img.chip img.ver p.entry.flags p.entry.sizeAlign p.ready.image ∧
+    p.ready.hash.length = 64 ∧ p.ready.iv.length = 32 := by
+  have hent := updateContainers_entries c img.chip img.ver img.containers 0 _ us h u hu p hp
+  obtain ⟨a, _, _, hhl, hivl, hsize, _⟩ := readyEntry_spec c hc img.chip img.ver _ p.entry p.ready hent.1
+  exact ⟨hent.2, hsize, hhl, hivl⟩
+
+/-! ## non-vacuity and sanity checks (decidable instances of the hypotheses) -/
+
+def exChip : Chip := ⟨(findChip "mimxrt1189" "latest").getD (AhabConsts.chips.headD default), "standard"⟩ where
+  default := ⟨"", "", "", 0, 0, 1, 1, [], false, [], [], []⟩
+
+example : exChip.row.family = "mimxrt1189" ∧ exChip.imageAlignment = 512 ∧ exChip.startAddr .v1 = 0x2000 := by decide
+example : sigBlockOffset .v1 2 = 272 ∧ sigBlockOffset .v2 0 = 16 := by decide
+example : AhabConsts.createFlagsV1 3 1 2 true 0x7FFF = .ok 0x7FFF0A13 ∧ AhabConsts.createFlagsV2 3 1 2 true 0 = .ok 0x1213 := by decide
+example : AhabConsts.createMeta 1023 1023 255 = .ok 0xFFFFFFF := by decide
+example : Ver.v1.containerOffset 2 = .ok 0x800 ∧ Ver.v2.containerOffset 3 = .ok 0xC000 ∧ Ver.v1.containerOffset 4 = .error .spsdk := by decide
+/-- a signature block with an SRK block of 20 bytes, a 10-byte signature (container: 18 bytes), a 12-byte certificate and a
+    blob of 72 bytes: version 1 aligns every block to 8 bytes, version 2 packs them without padding -/
+def exSb : SigBlock := ⟨List.replicate 20 1, List.replicate 10 2, [], List.replicate 12 3, some ⟨1, 128, 3, 0, 72, List.replicate 64 0, 7⟩⟩
+example : sbLayout .v1 exSb = ⟨16, 40, 64, 80, 152⟩ ∧ sbLayout .v2 exSb = ⟨16, 36, 54, 66, 138⟩ := by decide
+example : exSb.srk.length ≠ 0 ∧ exSb.sigSize .v1 ≠ 0 ∧ exSb.cert.length ≠ 0 ∧ exSb.blobLen ≠ 0 ∧ BlobLenOK exSb := by
+  refine ⟨by decide, by decide, by decide, by decide, ?_⟩
+  intro b hb; cases hb; decide
+/-- the verifier's SW / fuse version records at their limits and one above -/
+def exVC (sw fuse flags : Int) : VContainer := ⟨⟨135, 160, 0, 160⟩, flags, sw, fuse, 0, [], none⟩
+example : failed AhabConsts.recsContainer (containerEnv .v1 (exVC 65535 255 0xFFFFFFFF)) = [] := by decide
+example : failed AhabConsts.recsContainer (containerEnv .v1 (exVC 65536 0 0)) = ["SW version"] := by decide
+example : failed AhabConsts.recsContainer (containerEnv .v1 (exVC 0 256 0)) = ["Fuse version"] := by decide
+example : failed AhabConsts.recsContainer (containerEnv .v1 (exVC 0 0 0x100000000)) = ["Flags"] := by decide
+
 end SpsdkVerif.C06
